@@ -641,9 +641,9 @@ func (s *c44SyncBuf) String() string { s.mu.Lock(); defer s.mu.Unlock(); return 
 
 // c44Watchdog: no event logged for this long while waiting => inconclusive (a compile
 // under -race on a saturated machine logs nothing for a minute or more).
-var c44Watchdog = 300 * time.Second
+var c44Watchdog = 900 * time.Second
 
-var c44WatchdogTotal = 20 * time.Minute
+var c44WatchdogTotal = 40 * time.Minute
 
 type c44Env struct {
 	dir, in, out string
